@@ -671,6 +671,7 @@ static int state_sync_process(struct snapraid_state* state, struct snapraid_pari
 	struct snapraid_rehash* chghandle;
 	unsigned diskmax;
 	block_off_t blockcur;
+	block_off_t blockbad;
 	unsigned j;
 	void* zero_alloc;
 	void** zero;
@@ -1270,6 +1271,11 @@ static int state_sync_process(struct snapraid_state* state, struct snapraid_pari
 		/* write finished */
 		io_write_next(&io, blockcur, !parity_going_to_be_updated, writer_error);
 
+		/* mark as bad the blocks with a failed parity write, */
+		/* because they are already recorded as synced */
+		while (io_write_bad(&io, &blockbad))
+			info_set(&state->infoarr, blockbad, info_set_bad(info_get(&state->infoarr, blockbad)));
+
 		/* handle errors reported */
 		for (j = 0; j < IO_WRITER_ERROR_MAX; ++j) {
 			if (writer_error[j]) {
@@ -1439,6 +1445,11 @@ bail:
 	/* stop all the worker threads */
 	if (!io_stopped)
 		io_stop(&io);
+
+	/* mark as bad the blocks with a failed parity write, */
+	/* reported after the last io_write_next() */
+	while (io_write_bad(&io, &blockbad))
+		info_set(&state->infoarr, blockbad, info_set_bad(info_get(&state->infoarr, blockbad)));
 
 	for (j = 0; j < diskmax; ++j) {
 		struct snapraid_file* file = handle[j].file;
